@@ -84,7 +84,7 @@ func c12RunCtxProbe(_ map[string]any) (any, error) {
 			return nil, fmt.Errorf("%s: Finalize returned no error for a failed pipeline", kind)
 		}
 
-		out[kind] = map[string]any{"http": c12RunHTTP(cfg, nil, ferr), "grpc": c12RunGRPC(cfg, nil, ferr)}
+		out[kind] = map[string]any{"http": c12RunHTTP(cfg, nil, ferr, "live"), "grpc": c12RunGRPC(cfg, nil, ferr, "live")}
 	}
 
 	return out, nil
